@@ -238,7 +238,7 @@ func enumMembers(t *rapid.T, ints bool) []EnumMemberSpec {
 		}
 		return out
 	}
-	pool := []string{"auto", "always", "never", "", "with space", "1", "-1", "+inf", "UPPER", "snake_case", "a-b"}
+	pool := []string{"auto", "always", "never", "", "with space", "1", "-1", "+inf", "UPPER", "snake_case", "a-b", " padded "}
 	names := rapid.Permutation(pool).Draw(t, "enumvals")[:n]
 	for _, v := range names {
 		name := v
